@@ -15,12 +15,15 @@ EXPLANATION = (
 
 
 def check(ctx, run):
-    run.rules_run = ['R06.1', 'R06.2', 'R06.3', 'R06.4', 'R06.5', 'R06.8', 'R06.9', 'R05.1/R05.2(iterators)', 'R06.12', 'R06.13', 'R06.14', 'R06.15', 'R05.14']
+    run.rules_run = ['R06.1', 'R06.2', 'R06.3', 'R06.4', 'R06.5', 'R06.8', 'R06.9', 'R05.1/R05.2(iterators)', 'R06.12', 'R06.13', 'R06.14', 'R06.15', 'R06.16', 'R06.17', 'R05.14']
     ba = buffers.BufferAnalysis(ctx)
     from rules.c17 import entries
     for e in entries(ctx):
         ba.analyse_entry(e)
     buffers.r17_4(ctx, run, ba, None, rule='R06.1/R17.4')
+    # every editor appends its result where the caller's buffer ends: a header or entry word back-patched at a position not relative to that end
+    # leaves the appended document with a zero header (R17.2 over all editors and builders)
+    buffers.r17_2(ctx, run, ba, rule='R06.16/R17.2', floor=None)
     editing.r06_2(ctx, run)
     layout.r01_5(ctx, run, rule='R06.3', which='builder')
     editing.r07_3_5(ctx, run, rule3='R06.4/R07.3', rule5='R06.4/R07.5')
@@ -41,4 +44,6 @@ def check(ctx, run):
     _ed.r06_13(ctx, run, rule='R06.13')
     _ed.r11_6(ctx, run, rule='R06.14/R11.6')
     _ed.r06_15(ctx, run, rule='R06.15')
+    _ed.r06_17(ctx, run, rule='R06.17', floor=21)
+    _ed.r06_18(ctx, run, rule='R06.18')
     return report.finish(run, level='other', explanation=EXPLANATION, assumptions=["A1: valid documents", "A2/A3"])
